@@ -1,14 +1,24 @@
 /* C07: per-test leak verdict.  Concrete allocation scripts over two consecutive tests; expected-leak
  * counts, ignore flags and the tests' own pass/fail outcome are symbolic. */
 #define ENV_MALLOC_CAP 120
-#define ENV_CUSTOM_VSNPRINTF
+#ifdef LL2C_TRANSLATED
+#define ENV_CUSTOM_VSNPRINTF     /* translated world: text is not the subject; the real build formats the real report (its entries are counted) */
+#endif
 #include "env.c"
 #include "translated.h"
+#ifdef LL2C_TRANSLATED
 uint32_t env_vsnprintf(uint8_t* s, uint64_t n, uint8_t* f, uint8_t* va) { (void)f; (void)va; if (n > 1) { s[0] = '#'; s[1] = 0; } else if (n) s[0] = 0; return 1; }
+#endif
 static uint32_t reports;
 void h_report_cat(uint32_t c) { (void)c; reports++; }
 void h_exit_hook(void) { CHECK(0, "the plugin never leaves the test"); END_PATH(); }
 static uint8_t* listed[4]; static uint32_t nlisted;
+#ifdef LL2C_TRANSLATED
+uint32_t h_is_translated(void) { return 1; }
+#else
+uint32_t h_is_translated(void) { return 0; }
+#endif
+void h_listed_count(uint64_t n) { nlisted = (uint32_t)n; }
 #ifdef LL2C_TRANSLATED
 /* the report TEXT is property C14: the report builder is replaced by a recorder of which blocks are listed */
 void _ZN28MemoryLeakOutputStringBuffer16reportMemoryLeakEP22MemoryLeakDetectorNode(uint8_t* t, uint8_t* node) { (void)t; if (nlisted < 4) listed[nlisted] = h_node_memory(node); nlisted++; }
@@ -40,9 +50,12 @@ static void body(const uint32_t s1, const uint32_t s2) {
   int leakfail1 = !ig1 && e1 != live1 && !own1;
   OBSERVE(leakfail1);
   CHECK(h_failures() == f0 + (leakfail1 ? 1 : 0), "test 1 gets a leak failure iff it passed its own checks, did not ignore leaks and its outstanding blocks differ from the expected number");
+  if (leakfail1) {
+    CHECK(nlisted == live1, "the leak report lists exactly the blocks of this test that are still outstanding");
 #ifdef LL2C_TRANSLATED
-  if (leakfail1) { CHECK(nlisted == live1, "the leak report lists exactly the blocks of this test that are still outstanding"); if (live1) CHECK(listed[0] == a, "... namely this block"); }
+    if (live1) CHECK(listed[0] == a, "... namely this block");
 #endif
+  }
   /* ---- test 2 */
   h_pre();
   if (e2) h_expect(e2);
@@ -57,9 +70,12 @@ static void body(const uint32_t s1, const uint32_t s2) {
   int leakfail2 = !ig2 && e2 != live2 && !own2;
   OBSERVE(leakfail2);
   CHECK(h_failures() == f1 + (leakfail2 ? 1 : 0), "a block leaked by test 1 is not charged to test 2, and releasing it there does not offset a new leak");
+  if (leakfail2) {
+    CHECK(nlisted == live2, "the report of test 2 lists only its own outstanding blocks");
 #ifdef LL2C_TRANSLATED
-  if (leakfail2) { CHECK(nlisted == live2, "the report of test 2 lists only its own outstanding blocks"); if (live2) CHECK(listed[0] == b, "... namely this block"); }
+    if (live2) CHECK(listed[0] == b, "... namely this block");
 #endif
+  }
   CHECK(h_total(3) == 0, "after the post action no block is left in the checking period");
   CHECK(reports == 0, "no misuse is reported");
   WITNESS("end");
